@@ -2,6 +2,8 @@ SPECIFICATION Spec
 CONSTANTS
     Replies <- MCReplies
     Delays = {"none", "short", "long"}
+    Prompts = {"fast", "slow"}
+    DeadlineFrom = "io"
     EofCheck = "eof"
     WriteMode = "write"
     EmitEdges = TRUE
